@@ -1,0 +1,55 @@
+//go:build verif
+
+package evm
+
+import (
+	"github.com/ethereum/go-ethereum/common"
+	"github.com/ethereum/go-ethereum/core/state"
+)
+
+// VerifVolatile is the in-memory state of the EVM controller.
+type VerifVolatile struct {
+	LastRootHash    []byte
+	LastBlockHeight int64
+	GasPool         uint64
+	HasStateDB      bool
+}
+
+func (ctrler *EVMCtrler) VerifVolatile() VerifVolatile {
+	ctrler.mtx.RLock()
+	defer ctrler.mtx.RUnlock()
+	ret := VerifVolatile{
+		LastRootHash:    append([]byte(nil), ctrler.lastRootHash...),
+		LastBlockHeight: ctrler.lastBlockHeight,
+		HasStateDB:      ctrler.stateDBWrapper != nil,
+	}
+	if ctrler.blockGasPool != nil {
+		ret.GasPool = ctrler.blockGasPool.Gas()
+	}
+	return ret
+}
+
+// VerifStateCopy returns a deep copy of the state DB the controller is
+// currently executing on (nil before the first BeginBlock/Commit).
+func (ctrler *EVMCtrler) VerifStateCopy() *state.StateDB {
+	ctrler.mtx.RLock()
+	defer ctrler.mtx.RUnlock()
+	if ctrler.stateDBWrapper == nil || ctrler.stateDBWrapper.StateDB == nil {
+		return nil
+	}
+	return ctrler.stateDBWrapper.StateDB.Copy()
+}
+
+// VerifSynced returns the addresses currently marked as synced-in from the
+// native ledger, with their snapshot tags.
+func (ctrler *EVMCtrler) VerifSynced() map[common.Address]int {
+	ctrler.mtx.RLock()
+	defer ctrler.mtx.RUnlock()
+	ret := make(map[common.Address]int)
+	if ctrler.stateDBWrapper != nil {
+		for k, v := range ctrler.stateDBWrapper.accessedObjAddrs {
+			ret[k] = v
+		}
+	}
+	return ret
+}
